@@ -57,6 +57,12 @@ CORPUS = [
     (81, dict(method='pit', dim=1, fold=True, auto=False, userpit='some', ufold='same', train=False, multi=False, excl=False, want='linear')),
     (82, dict(method='pit', dim=2, fold=True, auto=True, userpit='some', ufold='same', train=True, multi=False, excl=False, want='linear')),
     (83, dict(method='pit', dim=2, fold=True, auto=False, userpit='all', ufold='same', train=True, multi=False, excl=False, want='conv2d')),
+    # convolutions with padding_mode circular / reflect / replicate (padding > 0), 2-D and 1-D, autoconverted and hand-placed
+    (101, dict(method='pit', dim=2, fold=False, auto=True, userpit='none', train=False, multi=False, excl=False, pmode=True)),
+    (107, dict(method='pit', dim=2, fold=True, auto=False, userpit='all', ufold='same', train=True, multi=False, excl=False, pmode=True)),
+    (106, dict(method='pit', dim=1, fold=False, auto=True, userpit='none', train=False, multi=False, excl=False, pmode=True)),
+    (104, dict(method='pit', dim=1, fold=True, auto=True, userpit='some', ufold='same', train=False, multi=False, excl=False, pmode=True)),
+    (105, dict(method='sn', dim=2, train=False, multi=False, pmode=True)),
     # layers re-parametrised with torch.nn.utils.prune (mask still attached) / weight_norm
     (91, dict(method='pit', dim=2, fold=False, auto=True, userpit='none', train=False, multi=False, excl=False, reparam=True)),
     (92, dict(method='pit', dim=1, fold=True, auto=True, userpit='none', train=True, multi=False, excl=True, reparam=True)),
@@ -81,7 +87,7 @@ CORPUS = [
 
 def gen_cases(ctx):
     rng = ctx.rng
-    n = 3 if ctx.quick else 36
+    n = 2 if ctx.quick else 36
     cases = list(CORPUS)
     base = ctx.seed * 1000003 + 17
     k = 0
@@ -90,6 +96,7 @@ def gen_cases(ctx):
         nonlocal k
         k += 1
         cfg['mixed'] = rng.random() < 0.45      # some modules flipped against the root's mode (frozen BN / Dropout ...)
+        cfg['pmode'] = rng.random() < 0.5        # per-layer padding_mode in {zeros, circular, reflect, replicate} on the convs that pad
         cfg['reparam'] = rng.random() < 0.3      # layers re-parametrised with torch.nn.utils.prune (mask attached) / weight_norm
         cfg['twice'] = rng.random() < 0.2         # a conv(+BatchNorm) pair invoked at two call sites of forward()
         if not cfg.get('integer'):
@@ -136,8 +143,8 @@ def gen_cases(ctx):
 
 def cfg_tag(cfg):
     if cfg['method'] != 'pit':
-        return '%s%s%s:%s' % ('mixed-flags:' if cfg.get('mixed') else '', ('training-branch:' if cfg.get('tbranch') else '') + ('bn-hp:' if cfg.get('bnhp') else '') + ('two-call-sites:' if cfg.get('twice') else '') + ('reparam:' if cfg.get('reparam') else ''), cfg['method'], 'train' if cfg['train'] else 'eval')
-    return ('mixed-flags:' if cfg.get('mixed') else '') + ('training-branch:' if cfg.get('tbranch') else '') + ('bn-hp:' if cfg.get('bnhp') else '') + ('two-call-sites:' if cfg.get('twice') else '') + ('reparam:' if cfg.get('reparam') else '') + ('placed-%s-bn:' % cfg['want'] if cfg.get('want') else '') + 'pit:%s:%s:%s%s:%s' % ('auto' if cfg['auto'] else 'import', 'userpit-' + cfg.get('userpit', 'none'), 'fold' if cfg['fold'] else 'nofold',
+        return '%s%s%s:%s' % ('mixed-flags:' if cfg.get('mixed') else '', ('training-branch:' if cfg.get('tbranch') else '') + ('bn-hp:' if cfg.get('bnhp') else '') + ('two-call-sites:' if cfg.get('twice') else '') + ('reparam:' if cfg.get('reparam') else '') + ('padmode:' if cfg.get('pmode') else ''), cfg['method'], 'train' if cfg['train'] else 'eval')
+    return ('mixed-flags:' if cfg.get('mixed') else '') + ('training-branch:' if cfg.get('tbranch') else '') + ('bn-hp:' if cfg.get('bnhp') else '') + ('two-call-sites:' if cfg.get('twice') else '') + ('reparam:' if cfg.get('reparam') else '') + ('padmode:' if cfg.get('pmode') else '') + ('placed-%s-bn:' % cfg['want'] if cfg.get('want') else '') + 'pit:%s:%s:%s%s:%s' % ('auto' if cfg['auto'] else 'import', 'userpit-' + cfg.get('userpit', 'none'), 'fold' if cfg['fold'] else 'nofold',
                                   ':int' if cfg.get('integer') else '', 'train' if cfg['train'] else 'eval')
 
 
